@@ -870,8 +870,10 @@ def rule_ident_range(prog):
         for s in hir.nodes(cur[0]["body"], "Struct"):
             if s.get("adt") == IDENT:
                 f = {x["name"]: x["e"] for x in s["fields"]}
-                rp = place(hir.strip(f.get("range", {})).get("recv", f.get("range", {}))) or ""
-                ok = rp.endswith(".range") and rp.startswith("token#")
+                re_ = hir.strip_ref(hir.strip(f.get("range", {})).get("recv", f.get("range", {})))
+                # (by role: the `range` field of a value of type Token)
+                ok = re_.get("k") == "Field" and re_["name"] == "range" and "tokens::Token" in (
+                    c.tstr(hir.strip(re_["base"])["t"]) + "".join(c.tstr(a_["to"]) for a_ in hir.strip(re_["base"]).get("adj") or []))
         n += 1
         out.add("features::DocumentCursor::ident", "Ident.range is the byte range of the token under the cursor", ok, c.loc(cur[0]["sp"]), "")
     # the *text* range a feature answers with for a name is the range of the identifier token.  The token parsers skip the comments in
